@@ -708,7 +708,164 @@ func (g *gen20) anchorPass(d *g20) {
 	nodes[j].kind, nodes[j].text = 3, "a1"
 }
 
+// ---- streams of same-kind documents from a built-in and a custom API group (UseSchema) ----
+// FormatFilter.Filter must look the schema up per document: a custom-group document (no schema) keeps its
+// quoted scalars even at positions the built-in schema of the same kind types as integer / boolean, and a
+// built-in document gets its YAML 1.1 keywords quoted at string-typed positions, whatever precedes it.
+
+var c20Keywords = []string{"on", "off", "yes", "no", "y", "n", "1", "010", "1e3", "true", "~", "0x1F", "1.5"}
+var c20CustomGroups = []string{"fleet.example.com/v1alpha1", "example.com/v1", "apps.example.org/v2"}
+
+func (g *gen20) twinWorkload(kind, api string, custom bool) *g20 {
+	r := g.r
+	q := func(s string) string { return "\"" + s + "\"" }
+	typed := func(plain string) *g20 { // a number / boolean: quoted in the custom document
+		if custom && r.Chance(85) {
+			return g.decorate(sc20(q(plain)))
+		}
+		if r.Chance(15) {
+			return g.decorate(sc20(q(plain)))
+		}
+		return g.decorate(sc20(plain))
+	}
+	str := func() *g20 { // a string position: YAML 1.1 keywords, mostly unquoted in the built-in document
+		k := r.Pick(c20Keywords)
+		if custom && r.Chance(50) {
+			return g.decorate(sc20(q(k)))
+		}
+		if r.Chance(20) {
+			return g.decorate(sc20(r.Pick([]string{"web", "x", "'" + k + "'"})))
+		}
+		return g.decorate(sc20(k))
+	}
+	d := &g20{kind: 1}
+	d.put("apiVersion", g.decorate(sc20(api)))
+	d.put("kind", g.decorate(sc20(kind)))
+	m := &g20{kind: 1}
+	m.put("name", g.decorate(sc20(r.Pick([]string{"foo", "bar", "app-1"}))))
+	l := &g20{kind: 1}
+	for _, k := range []string{"app", "tier", "enabled"}[:1+r.Intn(3)] {
+		l.put(k, str())
+	}
+	m.put("labels", g.decorate(l))
+	if r.Chance(60) {
+		a := &g20{kind: 1}
+		for _, k := range []string{"note", "owner"}[:1+r.Intn(2)] {
+			a.put(k, str())
+		}
+		m.put("annotations", g.decorate(a))
+	}
+	g.shuffle(m)
+	d.put("metadata", g.decorate(m))
+	switch kind {
+	case "ConfigMap":
+		data := &g20{kind: 1}
+		for _, k := range []string{"a", "b", "flag", "level"}[:1+r.Intn(4)] {
+			data.put(k, str())
+		}
+		d.put("data", g.decorate(data))
+	case "Service":
+		spec := &g20{kind: 1}
+		ps := &g20{kind: 2}
+		for j := 1 + r.Intn(2); j > 0; j-- {
+			p := &g20{kind: 1}
+			p.put("port", typed(r.Pick([]string{"80", "443"})))
+			p.put("name", str())
+			g.shuffle(p)
+			ps.vals = append(ps.vals, p)
+		}
+		spec.put("ports", g.decorate(ps))
+		spec.put("publishNotReadyAddresses", typed(r.Pick([]string{"true", "false"})))
+		spec.put("sessionAffinity", str())
+		g.shuffle(spec)
+		d.put("spec", g.decorate(spec))
+	default: // Deployment / StatefulSet
+		spec := &g20{kind: 1}
+		spec.put("replicas", typed(r.Pick([]string{"3", "1", "0"})))
+		if r.Chance(70) {
+			spec.put(r.Pick([]string{"paused", "paused"}), typed(r.Pick([]string{"true", "false"})))
+		}
+		if r.Chance(50) {
+			spec.put("minReadySeconds", typed("5"))
+		}
+		ps := &g20{kind: 1}
+		if r.Chance(60) {
+			ps.put("hostNetwork", typed(r.Pick([]string{"true", "false"})))
+		}
+		if r.Chance(50) {
+			ps.put("serviceAccountName", str())
+		}
+		cs := &g20{kind: 2}
+		for j, nm := range []string{"b", "a", "c"}[:1+r.Intn(3)] {
+			c := &g20{kind: 1}
+			c.put("name", sc20(nm))
+			c.put("image", sc20("nginx"))
+			if r.Chance(70) {
+				a := &g20{kind: 2}
+				for k := 1 + r.Intn(3); k > 0; k-- {
+					a.vals = append(a.vals, str())
+				}
+				c.put("args", g.decorate(a))
+			}
+			if r.Chance(60) {
+				p := &g20{kind: 1}
+				p.put("containerPort", typed(r.Pick([]string{"80", "8080"})))
+				c.put("ports", &g20{kind: 2, vals: []*g20{p}})
+			}
+			if r.Chance(50) {
+				e := &g20{kind: 1}
+				e.put("name", sc20("E"))
+				e.put("value", str())
+				c.put("env", &g20{kind: 2, vals: []*g20{e}})
+			}
+			if r.Chance(40) {
+				c.put("tty", typed("true"))
+			}
+			g.shuffle(c)
+			c.vals[0].head = ""
+			_ = j
+			cs.vals = append(cs.vals, c)
+		}
+		ps.put("containers", g.decorate(cs))
+		g.shuffle(ps)
+		tmpl := &g20{kind: 1}
+		tmpl.put("spec", ps)
+		spec.put("template", g.decorate(tmpl))
+		g.shuffle(spec)
+		d.put("spec", g.decorate(spec))
+	}
+	g.shuffle(d)
+	return d
+}
+
+// genTwinStream: 2-4 documents of one kind, alternating between the built-in group and a custom group
+// (both orders), always formatted with UseSchema.
+func genTwinStream(r *Rng) case20 {
+	g := &gen20{r: r}
+	g.comments = []int{0, 0, 10}[r.Intn(3)]
+	ka := [][2]string{{"Deployment", "apps/v1"}, {"StatefulSet", "apps/v1"}, {"ConfigMap", "v1"}, {"Service", "v1"},
+		{"Deployment", "apps/v1"}}[r.Intn(5)]
+	n := 2 + r.Intn(3)
+	customFirst := r.Bool()
+	docs := []string{}
+	for i := 0; i < n; i++ {
+		custom := (i%2 == 0) == customFirst
+		if i >= 2 && r.Chance(30) {
+			custom = r.Bool()
+		}
+		api := ka[1]
+		if custom {
+			api = r.Pick(c20CustomGroups)
+		}
+		docs = append(docs, g.twinWorkload(ka[0], api, custom).yaml())
+	}
+	return case20{Yaml: strings.Join(docs, "---\n"), UseSchema: true}
+}
+
 func genCase20(r *Rng) case20 {
+	if r.Chance(9) {
+		return genTwinStream(r)
+	}
 	g := &gen20{r: r}
 	n := 1
 	if r.Chance(25) {
